@@ -77,6 +77,7 @@ func (ex *Exec) loopCutAfterPhis(st *State, fr *Frame, pc *pendingCut) bool {
 	ghosts, ghostsAll := map[string]bool{}, false
 	callWrites := false
 	cells := map[*Cell]bool{}
+	regionSet := map[*Region]bool{}
 	for _, b := range li.body[pc.hdr.Index] {
 		for _, ins := range b.Instrs {
 			switch x := ins.(type) {
@@ -103,6 +104,15 @@ func (ex *Exec) loopCutAfterPhis(st *State, fr *Frame, pc *pendingCut) bool {
 						if inLoop {
 							continue
 						}
+					}
+					// a store through a slice that exists unchanged at the cut (defined outside the loop body):
+					// only that slice's region is written (distinct regions never overlap in the memory model)
+					if sv, ok := fr.Vals[r.X].(SliceV); ok && sv.Region != nil && !definedIn(r.X, li.body[pc.hdr.Index]) {
+						regionSet[sv.Region] = true
+						for _, sub := range sv.Region.Sub {
+							regionSet[sub] = true
+						}
+						continue
 					}
 					regions = true
 				default:
@@ -168,6 +178,17 @@ func (ex *Exec) loopCutAfterPhis(st *State, fr *Frame, pc *pendingCut) bool {
 	if regions {
 		for r, m := range st.Mem {
 			st.Mem[r] = ex.fresh("loopmem", m.S)
+		}
+	} else if len(regionSet) > 0 {
+		var rs []*Region
+		for r := range regionSet {
+			rs = append(rs, r)
+		}
+		sort.Slice(rs, func(i, j int) bool { return rs[i].id < rs[j].id })
+		for _, r := range rs {
+			if m, ok := st.Mem[r]; ok {
+				st.Mem[r] = ex.fresh("loopmem", m.S)
+			}
 		}
 	}
 	if big {
@@ -492,4 +513,18 @@ func (ex *Exec) mayArith(f *ssa.Function, depth int) bool {
 		p.arithMemo[f] = 1
 	}
 	return res
+}
+
+// definedIn: is v the result of an instruction of one of these blocks
+func definedIn(v ssa.Value, blocks []*ssa.BasicBlock) bool {
+	ins, ok := v.(ssa.Instruction)
+	if !ok {
+		return false
+	}
+	for _, b := range blocks {
+		if ins.Block() == b {
+			return true
+		}
+	}
+	return false
 }
